@@ -313,6 +313,7 @@ struct World {
    std::vector<void*> noise_blocks;
    std::vector<impl::ref_sequence<ipr::Attribute>*> attr_seqs;      // sequences kept by reference by attributes: owned by the world
    std::vector<uint64_t> op_counts;                      // per opcode: times applied
+   std::vector<int> step_codes;                          // opcode applied at each step (index = step), for leak attribution
    Builtins builtins;
    std::vector<impl::Warehouse<ipr::Type>*> dead_warehouses;   // (none kept: warehouses die right after the call)
    uint64_t creation_checks = 0, unify_hits = 0, unify_fresh = 0;
